@@ -1,6 +1,6 @@
 (* C04 — collinear signal: the idler stays collinear for every poling, so the longitudinal mismatch is
    dkz(period) = dkz(unpoled) - 2 pi / (sign * period); the seed 2 pi / |dkz(unpoled)| is an exact root and is returned. *)
-From Coq Require Import Reals Lra Bool.
+From Coq Require Import Reals Lra Bool List.
 From SpdVerif Require Import Base.Rx Base.Vec3 Gen.Idler Gen.Poling Model.Idler Model.NM1d Model.Poling
   Proofs.C03_base Proofs.C03_idler Proofs.C04_nm Proofs.C04_poling.
 Local Open Scope R_scope.
@@ -57,12 +57,13 @@ Section Collinear.
   Lemma collinear_root :
     let z := dkz_c PPOff in
     z <> 0 -> wz PPOff <> 0 ->
-    (forall x, opp_min_period <= x <= L -> wz (PPOn x (sign_from z)) <> 0) ->
+    (forall x, In x (strace (nm_run Rltb o (pol_cost dkz_c L) sd (opp_seed0 (opp_guess z)) (opp_seed1 (opp_guess z)) opp_max_iter)) ->
+               opp_min_period <= x <= L -> wz (PPOn x (sign_from z)) <> 0) ->
     opp_min_period <= Rabs (2 * PI / z) <= L ->
     optimum_poling_period dkz_c o sd L = AutoOk (2 * PI / z) /\ dkz_c (poling_of (2 * PI / z)) = 0.
   Proof.
     intros z Hz H0 Hall Hr.
     apply (collinear_exact dkz_c o sd L); try assumption.
-    intros x Hx. unfold dkz_on. apply collinear_dkz; [pose proof min_period_pos; lra | exact H0 | apply Hall; exact Hx].
+    intros x Hin Hx. unfold dkz_on. apply collinear_dkz; [pose proof min_period_pos; lra | exact H0 | apply Hall; assumption].
   Qed.
 End Collinear.
